@@ -75,6 +75,7 @@ type sut struct {
 	lag      time.Duration // accumulated lag of the store's clock behind the replicas' clock (see shift)
 	lagNext  time.Duration // lag to introduce with the next shift
 	ocfg     *mock.TestConfiguration
+	prov     openidconfig.Provider // built by the real NewProviderConfig from the fake provider's discovery document
 	mr       *miniredis.Miniredis
 	crypter  crypto.Crypter
 	key      []byte
@@ -148,25 +149,16 @@ func newSut(o sutOpts) *sut {
 	}
 	tc := *sharedClient
 	tc.Config = s.cfg
-	s.ocfg = &mock.TestConfiguration{TestClient: &tc, TestProvider: &mock.TestProviderConfiguration{Cfg: s.cfg, Metadata: &openidconfig.ProviderMetadata{
-		ACRValuesSupported: openidconfig.Supported{"idporten-loa-substantial", "idporten-loa-high"},
-		UILocalesSupported: openidconfig.Supported{"nb", "nb", "en", "se"},
-	}}}
-	p := s.ocfg.TestProvider
-	p.SetAuthorizationEndpoint(s.idp.srv.URL + "/authorize")
-	p.SetEndSessionEndpoint(s.idp.srv.URL + "/endsession")
-	p.SetIssuer(s.idp.issuer)
-	p.SetJwksURI(s.idp.srv.URL + "/jwks")
-	p.SetTokenEndpoint(s.idp.srv.URL + "/token")
-	if o.sidRequired {
-		p.WithFrontChannelLogoutSupport()
+	s.ocfg = &mock.TestConfiguration{TestClient: &tc, TestProvider: &mock.TestProviderConfiguration{Cfg: s.cfg, Metadata: &openidconfig.ProviderMetadata{}}}
+	// the provider half of the OpenID configuration comes from the REAL discovery code path: NewProviderConfig fetches and decodes the fake provider's
+	// well-known document (no hand-filled ProviderMetadata), so SidClaimRequired, the iss-parameter flag, the PAR endpoint etc. are what the decoder yields
+	s.idp.discoIssParam, s.idp.discoPar = o.issParam, o.par
+	s.cfg.OpenID.WellKnownURL = s.idp.srv.URL + "/.well-known/openid-configuration"
+	prov, err := openidconfig.NewProviderConfig(s.cfg)
+	if err != nil {
+		panic("discovery: " + err.Error())
 	}
-	if o.issParam {
-		p.WithAuthorizationResponseIssParameterSupported()
-	}
-	if o.par {
-		p.SetPushedAuthorizationRequestEndpoint(s.idp.srv.URL + "/par")
-	}
+	s.prov = prov
 	return s
 }
 
@@ -235,7 +227,7 @@ func (s *sut) replicaMode(name, mode string) *replica {
 		cfg.OpenID.Audiences = s.o.audiences
 		ocfg.TestClient = mock.NewTestConfiguration(cfg).TestClient // trusted audiences are fixed at construction
 	}
-	var oc openidconfig.Config = &ocfg
+	var oc openidconfig.Config = &anyConfig{ocfg.TestClient, s.prov}
 	if s.o.clientSecret != "" {
 		cfg.OpenID.ClientSecret = s.o.clientSecret
 		cfg.OpenID.ClientJWK = ""
@@ -244,7 +236,7 @@ func (s *sut) replicaMode(name, mode string) *replica {
 		if err != nil {
 			panic(err)
 		}
-		oc = &anyConfig{cl, ocfg.TestProvider}
+		oc = &anyConfig{cl, s.prov}
 	}
 	if s.o.realJwks {
 		p, err := provider.NewJwksProvider(context.Background(), oc)
